@@ -5,6 +5,7 @@ From Coq Require Import List Arith Lia QArith Qcanon.
 From QV.Core Require Import OF Sums Mat QcOF.
 From QV.Model Require Import Multinomial C19_Expect C19_ErrFormulas.
 From QV.Proofs Require Import C19_Expect C19_ErrFormulas.
+From QV.Exec Require Import C19_ops.
 Import ListNotations.
 Local Open Scope nat_scope.
 
@@ -74,87 +75,107 @@ Theorem C19_mse_object_exact : forall (F : OF) (nv nr : nat) (A L : @mat F) (b v
 Proof. exact mse_object_exact_thm. Qed.
 Print Assumptions C19_mse_object_exact.
 
-(* ---- what StandardQTomography.calc_mse_linear_analytical computes (model of the code) ---- *)
+(* ---- what the StandardQTomography methods compute (model of the repaired code) ----
+   ms = numbers of outcomes of the schedules (they may DIFFER), sizes_sum ms = number of rows of A; the hypothesis pieces_ok says
+   that piece j of A v + b (rows  sizes_sum (firstn j ms) ..  + nth j ms 0) sums to one and has entries 0 or >= eps. *)
+(* calc_covariance_mat_total is the exact covariance of the stacked empirical distributions *)
+Theorem C19_tomo_cov_total_exact : forall (F : OF) (eps : F) (nv : nat) (ms : list nat) (A : @mat F) (b v : @vec F) (n : nat -> nat),
+  pieces_ok F eps (affine F nv A b v) ms ->
+  (forall j, (j < length ms)%nat -> (1 <= n j)%nat) ->
+  forall i j,
+  expectL F (tomo_scheds F eps nv ms A b v n)
+     (fun obs => cmul F (dev_total F (tomo_scheds F eps nv ms A b v n) obs i) (dev_total F (tomo_scheds F eps nv ms A b v n) obs j))
+  = tomo_cov_total F eps nv ms A b v (fun j => of_nat F (n j)) i j.
+Proof. exact tomo_cov_total_exact. Qed.
+Print Assumptions C19_tomo_cov_total_exact.
 (* mode = "var": exact for all four tomography types and both parametrisations *)
-Theorem C19_tomo_mse_var_exact : forall (F : OF) (eps : F) (nv J m : nat) (A L : @mat F) (b v : @vec F) (n : nat -> nat),
-  (0 < m)%nat ->
-  (forall j, (j < J)%nat -> sumn m (fun x => affine F nv A b v (j * m + x)) = c1 F) ->
-  (forall j x, (j < J)%nat -> (x < m)%nat ->
-     affine F nv A b v (j * m + x) = c0 F \/ kle F eps (affine F nv A b v (j * m + x))) ->
-  (forall j, (j < J)%nat -> (1 <= n j)%nat) ->
-  meq nv nv (mmul (J * m) L A) mid ->
-  forall (ty : ttype) (on_eq : bool) (d2 : nat),
-  mse_linear_analytical F ty false on_eq d2 nv (J * m) L (tomo_cov_total F eps nv J m A b v (fun j => of_nat F (n j)))
-  = expectL F (tomo_scheds F eps nv J m A b v n)
-      (fun obs => sqdist F nv (est F (J * m) L b (tomo_scheds F eps nv J m A b v n) obs) v).
+Theorem C19_tomo_mse_var_exact : forall (F : OF) (eps : F) (nv : nat) (ms : list nat) (A L : @mat F) (b v : @vec F) (n : nat -> nat),
+  pieces_ok F eps (affine F nv A b v) ms ->
+  (forall j, (j < length ms)%nat -> (1 <= n j)%nat) ->
+  meq nv nv (mmul (sizes_sum ms) L A) mid ->
+  forall (ty : ttype) (on_eq : bool) (d2 mo : nat),
+  mse_linear_analytical F ty false on_eq d2 mo nv (sizes_sum ms) L (tomo_cov_total F eps nv ms A b v (fun j => of_nat F (n j)))
+  = expectL F (tomo_scheds F eps nv ms A b v n)
+      (fun obs => sqdist F nv (est F (sizes_sum ms) L b (tomo_scheds F eps nv ms A b v n) obs) v).
 Proof. exact tomo_mse_var_exact. Qed.
 Print Assumptions C19_tomo_mse_var_exact.
 
-(* mode = "qoperation": exact for QST, POVMT (with the S = [I ... I] correction), QPT in both parametrisations
-   and for QMPT without the equality constraint *)
-Theorem C19_tomo_mse_qoperation_exact : forall (F : OF) (eps : F) (nv J m : nat) (A L : @mat F) (b v : @vec F) (n : nat -> nat),
-  (0 < m)%nat ->
-  (forall j, (j < J)%nat -> sumn m (fun x => affine F nv A b v (j * m + x)) = c1 F) ->
-  (forall j x, (j < J)%nat -> (x < m)%nat ->
-     affine F nv A b v (j * m + x) = c0 F \/ kle F eps (affine F nv A b v (j * m + x))) ->
-  (forall j, (j < J)%nat -> (1 <= n j)%nat) ->
-  meq nv nv (mmul (J * m) L A) mid ->
-  forall (ty : ttype) (on_eq : bool) (d2 mo : nat), (ty = QMPT -> on_eq = false) ->
-  mse_linear_analytical F ty true on_eq d2 nv (J * m) L (tomo_cov_total F eps nv J m A b v (fun j => of_nat F (n j)))
-  = expectL F (tomo_scheds F eps nv J m A b v n)
+(* mode = "qoperation": exact for all four tomography types in both parametrisations (POVMT with the S = [I ... I] correction,
+   QMPT with the first-row correction added by fix qmpt-mse-linear-analytical-qoperation).  implied_S is the specification of
+   which entries of the object are implied by the variables; the harness ties it to quara's to_stacked_vector /
+   convert_var_to_qoperation (sub-check object_err). *)
+Theorem C19_tomo_mse_qoperation_exact : forall (F : OF) (eps : F) (nv : nat) (ms : list nat) (A L : @mat F) (b v : @vec F) (n : nat -> nat),
+  pieces_ok F eps (affine F nv A b v) ms ->
+  (forall j, (j < length ms)%nat -> (1 <= n j)%nat) ->
+  meq nv nv (mmul (sizes_sum ms) L A) mid ->
+  forall (ty : ttype) (on_eq : bool) (d2 mo : nat),
+  mse_linear_analytical F ty true on_eq d2 mo nv (sizes_sum ms) L (tomo_cov_total F eps nv ms A b v (fun j => of_nat F (n j)))
+  = expectL F (tomo_scheds F eps nv ms A b v n)
       (fun obs => object_sqerr F d2 nv (implied_S F ty on_eq d2 mo)
-                    (vsub (est F (J * m) L b (tomo_scheds F eps nv J m A b v n) obs) v)).
+                    (vsub (est F (sizes_sum ms) L b (tomo_scheds F eps nv ms A b v n) obs) v)).
 Proof. exact tomo_mse_qoperation_exact. Qed.
 Print Assumptions C19_tomo_mse_qoperation_exact.
 
-(* FULL statement (false of the faithful model): the same equation for ty = QMPT, on_eq = true.
-   StandardQmpt does not override _calc_mse_linear_analytical_mode_qoperation, so the variance of the implied
-   first row of the last HS matrix is missing.  Witness: the one-dimensional instance (d2 = 1) with two outcomes,
-   one schedule, one shot: analytical 1/4, exact expectation 1/2. *)
+(* the analytical value depends on V = L Sigma L^T only through its nv x nv entries (justifies evaluating it on a materialised V) *)
+Theorem C19_mse_analytical_of_cov_ext : forall (F : OF) ty mode on_eq d2 mo nv (V V' : @mat F), meq nv nv V V' ->
+  mse_analytical_of_cov F ty mode on_eq d2 mo nv V = mse_analytical_of_cov F ty mode on_eq d2 mo nv V'.
+Proof. exact mse_analytical_of_cov_ext. Qed.
+Print Assumptions C19_mse_analytical_of_cov_ext.
+
+(* The code AS IT WAS BEFORE fix qmpt-mse-linear-analytical-qoperation ([mse_linear_analytical_before_fix], not executed by the
+   harness any more) agrees with the repaired code except for QMPT / qoperation mode / equality constraint ... *)
+Theorem C19_before_fix_agrees_elsewhere : forall (F : OF) ty mode on_eq d2 mo nv nr (L Sg : @mat F),
+  (ty = QMPT -> mode = true -> on_eq = true -> False) ->
+  mse_linear_analytical_before_fix F ty mode on_eq d2 nv nr L Sg = mse_linear_analytical F ty mode on_eq d2 mo nv nr L Sg.
+Proof. exact mse_analytical_before_fix_agrees. Qed.
+Print Assumptions C19_before_fix_agrees_elsewhere.
+(* ... and there it was NOT the exact expectation: StandardQmpt did not override _calc_mse_linear_analytical_mode_qoperation,
+   so the variance of the implied first row of the last HS matrix was missing.  Witness: the one-dimensional instance (d2 = 1)
+   with two outcomes, one schedule, one shot: analytical 1/4, exact expectation 1/2.  (A statement about the labelled
+   before-fix definition only; if the defect returns the harness reports it against the repaired model.) *)
 Definition w_A : @mat Qc_OF := fun i _ => match i with O => 1%Qc | _ => (- (1))%Qc end.
 Definition w_b : @vec Qc_OF := fun i => match i with O => 0%Qc | _ => 1%Qc end.
 Definition w_v : @vec Qc_OF := fun _ => Q2Qc (1 # 2)%Q.
 Definition w_L : @mat Qc_OF := fun _ j => match j with O => Q2Qc (1 # 2)%Q | _ => Q2Qc (- 1 # 2)%Q end.
 Definition w_eps : Qc := Q2Qc (1 # 10000000000000)%Q.
-Theorem C19_qmpt_qoperation_mse_refuted :
-  exists (eps : Qc) (nv J m d2 mo : nat) (A L : @mat Qc_OF) (b v : @vec Qc_OF) (n : nat -> nat),
-  (0 < m)%nat /\
-  (forall j, (j < J)%nat -> sumn m (fun x => affine Qc_OF nv A b v (j * m + x)) = c1 Qc_OF) /\
-  (forall j x, (j < J)%nat -> (x < m)%nat ->
-     affine Qc_OF nv A b v (j * m + x) = c0 Qc_OF \/ kle Qc_OF eps (affine Qc_OF nv A b v (j * m + x))) /\
-  (forall j, (j < J)%nat -> (1 <= n j)%nat) /\
-  meq nv nv (mmul (J * m) L A) mid /\
-  mse_linear_analytical Qc_OF QMPT true true d2 nv (J * m) L (tomo_cov_total Qc_OF eps nv J m A b v (fun j => of_nat Qc_OF (n j)))
-  <> expectL Qc_OF (tomo_scheds Qc_OF eps nv J m A b v n)
+Theorem C19_qmpt_qoperation_mse_before_fix_refuted :
+  exists (eps : Qc) (nv d2 mo : nat) (ms : list nat) (A L : @mat Qc_OF) (b v : @vec Qc_OF) (n : nat -> nat),
+  pieces_ok Qc_OF eps (affine Qc_OF nv A b v) ms /\
+  (forall j, (j < length ms)%nat -> (1 <= n j)%nat) /\
+  meq nv nv (mmul (sizes_sum ms) L A) mid /\
+  mse_linear_analytical_before_fix Qc_OF QMPT true true d2 nv (sizes_sum ms) L (tomo_cov_total Qc_OF eps nv ms A b v (fun j => of_nat Qc_OF (n j)))
+  <> expectL Qc_OF (tomo_scheds Qc_OF eps nv ms A b v n)
        (fun obs => object_sqerr Qc_OF d2 nv (implied_S Qc_OF QMPT true d2 mo)
-                     (vsub (est Qc_OF (J * m) L b (tomo_scheds Qc_OF eps nv J m A b v n) obs) v)).
-Proof. exists w_eps, 1%nat, 1%nat, 2%nat, 1%nat, 2%nat, w_A, w_L, w_b, w_v, (fun _ => 1%nat).
-  split; [lia|]. split. { intros j Hj. assert (j = O) by lia. subst. apply Qc_is_canon. vm_compute. reflexivity. }
-  split. { intros j x Hj Hx. assert (j = O) by lia. subst. right.
-           destruct x as [|[|x]]; [| |lia]; apply Qcleb_spec; vm_compute; reflexivity. }
+                     (vsub (est Qc_OF (sizes_sum ms) L b (tomo_scheds Qc_OF eps nv ms A b v n) obs) v)).
+Proof. exists w_eps, 1%nat, 1%nat, 2%nat, [2%nat], w_A, w_L, w_b, w_v, (fun _ => 1%nat).
+  split. { intros j Hj. cbn [length] in Hj. assert (j = O) by lia. subst. split.
+           - apply Qc_is_canon. vm_compute. reflexivity.
+           - intros x Hx. cbn [nth] in Hx. right. destruct x as [|[|x]]; [| |lia]; apply Qcleb_spec; vm_compute; reflexivity. }
   split; [intros; lia|].
   split. { intros i j Hi Hj. assert (i = O) by lia. assert (j = O) by lia. subst. apply Qc_is_canon. vm_compute. reflexivity. }
   intros H. apply (f_equal (fun q : Qc => Qeq_bool (this q) (1 # 4)%Q)) in H. vm_compute in H. discriminate H. Qed.
-Print Assumptions C19_qmpt_qoperation_mse_refuted.
+Print Assumptions C19_qmpt_qoperation_mse_before_fix_refuted.
+(* the same witness with the repaired model: both sides are 1/2 *)
+Example C19_qmpt_witness_repaired :
+  mse_linear_analytical Qc_OF QMPT true true 1 2 1 2 w_L (tomo_cov_total Qc_OF w_eps 1 [2%nat] w_A w_b w_v (fun j => of_nat Qc_OF 1))
+  = Q2Qc (1 # 2)%Q.
+Proof. apply Qc_is_canon. vm_compute. reflexivity. Qed.
 
 (* ---- MSE of the empirical distributions ---- *)
 (* calc_mse_empi_dists_analytical = E sum_j |f_j - p_j|^2 ... *)
-Theorem C19_tomo_mse_empi_exact : forall (F : OF) (eps : F) (nv J m : nat) (A : @mat F) (b v : @vec F) (n : nat -> nat),
-  (0 < m)%nat ->
-  (forall j, (j < J)%nat -> sumn m (fun x => affine F nv A b v (j * m + x)) = c1 F) ->
-  (forall j x, (j < J)%nat -> (x < m)%nat ->
-     affine F nv A b v (j * m + x) = c0 F \/ kle F eps (affine F nv A b v (j * m + x))) ->
-  (forall j, (j < J)%nat -> (1 <= n j)%nat) ->
-  mse_empi F eps nv J m A b v (fun j => of_nat F (n j))
-  = expectL F (tomo_scheds F eps nv J m A b v n)
-      (fun obs => dot (J * m) (dev_total F (tomo_scheds F eps nv J m A b v n) obs)
-                              (dev_total F (tomo_scheds F eps nv J m A b v n) obs)).
+Theorem C19_tomo_mse_empi_exact : forall (F : OF) (eps : F) (nv : nat) (ms : list nat) (A : @mat F) (b v : @vec F) (n : nat -> nat),
+  pieces_ok F eps (affine F nv A b v) ms ->
+  (forall j, (j < length ms)%nat -> (1 <= n j)%nat) ->
+  mse_empi F eps nv ms A b v (fun j => of_nat F (n j))
+  = expectL F (tomo_scheds F eps nv ms A b v n)
+      (fun obs => dot (sizes_sum ms) (dev_total F (tomo_scheds F eps nv ms A b v n) obs)
+                                (dev_total F (tomo_scheds F eps nv ms A b v n) obs)).
 Proof. exact tomo_mse_empi_exact. Qed.
 Print Assumptions C19_tomo_mse_empi_exact.
 (* ... = sum_j (1 - |p_j|^2) / n_j *)
-Theorem C19_mse_empi_closed_form : forall (F : OF) eps nv J m (A : @mat F) (b v : @vec F) (ns : nat -> F),
-  (forall j, (j < J)%nat -> sumn m (prob_dists F eps nv m A b v j) = c1 F) ->
-  mse_empi F eps nv J m A b v ns = mse_empi_closed F eps nv J m A b v ns.
+Theorem C19_mse_empi_closed_form : forall (F : OF) eps nv ms (A : @mat F) (b v : @vec F) (ns : nat -> F),
+  Forall (fun mp : nat * @vec F => sumn (fst mp) (snd mp) = c1 F) (tomo_pds F eps nv ms A b v) ->
+  mse_empi F eps nv ms A b v ns = mse_empi_closed F eps nv ms A b v ns.
 Proof. exact mse_empi_closed_eq. Qed.
 Print Assumptions C19_mse_empi_closed_form.
 Theorem C19_mse_empi_exact : forall (F : OF) (ss : list (sched F)), Forall (valid_sched F) ss ->
@@ -189,13 +210,20 @@ Theorem C19_mu_fisher_ok : forall (F : OF) eps m (p : nat -> F) (G : @mat F),
   mu_fisher F eps m m p G = MOk (fisher_core F m (replace_prob_dist F eps m p) G).
 Proof. exact mu_fisher_ok. Qed.
 Print Assumptions C19_mu_fisher_ok.
-(* FULL statement (false of the faithful model): matrix_util.calc_fisher_matrix_total returns sum_j w_j F_j on valid
-   input.  The accumulator is allocated with the size of the distribution, so 3 outcomes / 2 variables raises. *)
+(* matrix_util.calc_fisher_matrix_total (after fix calc-fisher-matrix-total-size) returns sum_j w_j F_j, an nv x nv matrix,
+   on every valid input (non-negative weights, valid distributions), for any number of outcomes m and variables nv *)
+Theorem C19_mu_fisher_total_ok : forall (F : OF) eps m nv (items : list (F * @vec F * @mat F)),
+  Forall (item_ok F eps m) items -> kleb F eps (c0 F) = false ->
+  exists M, mu_fisher_total F eps m nv items = MOk (nv, M) /\ forall a b, M a b = fisher_total_def F eps m items a b.
+Proof. exact mu_fisher_total_ok. Qed.
+Print Assumptions C19_mu_fisher_total_ok.
+(* The code AS IT WAS BEFORE that fix ([mu_fisher_total_before_fix], not executed by the harness any more) allocated the accumulator
+   with the size of the distribution, so 3 outcomes / 2 variables raised on valid input. *)
 Definition w_G : @mat Qc_OF := fun x a => match x, a with O, O => 1%Qc | 1%nat, 1%nat => 1%Qc | 2%nat, _ => (- (1))%Qc | _, _ => 0%Qc end.
 Definition w_p : @vec Qc_OF := fun _ => Q2Qc (1 # 3)%Q.
-Theorem C19_fisher_total_util_refuted :
+Theorem C19_fisher_total_util_before_fix_refuted :
   exists (eps : Qc) (m nv : nat) (items : list (Qc * @vec Qc_OF * @mat Qc_OF)),
-    mu_fisher_total Qc_OF eps m nv items = MErr 7 /\
+    mu_fisher_total_before_fix Qc_OF eps m nv items = MErr 7 /\
     Forall (fun it => let '(w, p, G) := it in
               kle Qc_OF (c0 Qc_OF) w /\ exists M, mu_fisher Qc_OF eps m m p G = MOk M) items.
 Proof. exists (Q2Qc (1 # 100000000)%Q), 3%nat, 2%nat, [(1%Qc, w_p, w_G)]. split; [vm_compute; reflexivity|].
@@ -203,7 +231,10 @@ Proof. exists (Q2Qc (1 # 100000000)%Q), 3%nat, 2%nat, [(1%Qc, w_p, w_G)]. split;
   assert (E : match mu_fisher Qc_OF (Q2Qc (1 # 100000000)%Q) 3 3 w_p w_G with MOk _ => true | MErr _ => false end = true)
     by (vm_compute; reflexivity).
   destruct (mu_fisher Qc_OF (Q2Qc (1 # 100000000)%Q) 3 3 w_p w_G) as [M|c]; [now exists M|discriminate E]. Qed.
-Print Assumptions C19_fisher_total_util_refuted.
+Print Assumptions C19_fisher_total_util_before_fix_refuted.
+(* the hypotheses of C19_mu_fisher_total_ok hold on that witness *)
+Example C19_fisher_total_witness_valid : Forall (item_ok Qc_OF (Q2Qc (1 # 100000000)%Q) 3) [(1%Qc, w_p, w_G)].
+Proof. constructor; [|constructor]. split; [apply Qcleb_spec; vm_compute; reflexivity|vm_compute; reflexivity]. Qed.
 
 (* ---- Cramer-Rao bound and left inverse: the numerical kernels are pinned down by their certificates ---- *)
 Theorem C19_inverse_unique : forall (F : OF) (n : nat) (Fm M M' : @mat F),
@@ -214,30 +245,71 @@ Theorem C19_cr_bound_determined : forall (F : OF) (n : nat) (N : F) (Fm M M' : @
   meq n n (mmul n Fm M) mid -> meq n n (mmul n M' Fm) mid -> cr_var F n N M' = cr_var F n N M.
 Proof. exact cr_var_unique. Qed.
 Print Assumptions C19_cr_bound_determined.
+(* textbook form of calc_cramer_rao_bound: the code forms F_w = sum_j (n_j/N) F_j, inverts it and returns tr(F_w^-1)/N.
+   N F_w is the total Fisher information sum_j n_j F_j of the experiment, M/N is its inverse, and the returned value is tr(M/N). *)
+Theorem C19_cr_weights_total_information : forall (F : OF) (N : F) (ns : nat -> F) (js : list nat) (Fs : list (@mat F)) a b,
+  N <> c0 F ->
+  cmul F N (wsum_mats F (combine (map (cr_weights F N ns) js) Fs) a b) = wsum_mats F (combine (map ns js) Fs) a b.
+Proof. exact wsum_weights_scale. Qed.
+Print Assumptions C19_cr_weights_total_information.
+Theorem C19_cr_bound_textbook : forall (F : OF) (n : nat) (N : F) (Fw M : @mat F), N <> c0 F ->
+  meq n n (mmul n Fw M) mid ->
+  meq n n (mmul n (mscale N Fw) (mscale (kinv F N) M)) mid /\ cr_var F n N M = mtrace n (mscale (kinv F N) M).
+Proof. exact cr_bound_textbook. Qed.
+Print Assumptions C19_cr_bound_textbook.
 Theorem C19_left_inv_normal_eq : forall (F : OF) (nv nr : nat) (A L : @mat F),
   meq nv nv (mmul nr L A) mid -> meq nr nr (mmul nv A L) (mT (mmul nv A L)) ->
   meq nv nr (mmul nr (mT A) (mmul nv A L)) (mT A).
 Proof. exact left_inv_normal_eq. Qed.
 Print Assumptions C19_left_inv_normal_eq.
 
-(* ---- non-vacuity: two schedules with two outcomes, one variable, unequal shot numbers ---- *)
-Definition ex_A : @mat Qc_OF := fun i _ => match i with O => 1%Qc | 1%nat => (- (1))%Qc | 2%nat => Q2Qc (1 # 2)%Q | _ => Q2Qc (- 1 # 2)%Q end.
-Definition ex_b : @vec Qc_OF := fun i => match i with O => 0%Qc | 1%nat => 1%Qc | 2%nat => Q2Qc (1 # 4)%Q | _ => Q2Qc (3 # 4)%Q end.
+(* ---- the executed driver op c19.tomo_mse evaluates the formulas on materialised (list-backed) matrices; these values ARE the
+   model functions of the theorems above (h = the parsed request: type, flags, sizes ms, A, b, v) ---- *)
+Theorem C19_exec_analytical_is_model : forall (h : hdr) (eps : Qc) (nsv : rvec) (L : rmat) (mode : bool), sizes_ok h = true ->
+  tomo_ana h eps nsv L mode
+  = mse_linear_analytical Qc_OF (h_ty h) mode (h_eq h) (h_d2 h) (h_mo h) (h_nv h) (h_nr h) L
+      (tomo_cov_total Qc_OF eps (h_nv h) (h_ms h) (h_A h) (h_b h) (h_v h) nsv).
+Proof. exact tomo_ana_spec. Qed.
+Print Assumptions C19_exec_analytical_is_model.
+Theorem C19_exec_exact_is_model : forall (h : hdr) (eps : Qc) (nsv : rvec) (L : rmat), sizes_ok h = true ->
+  tomo_exact h eps nsv L
+  = mse_object_exact Qc_OF (h_d2 h) (h_nv h) (h_nr h) (implied_S Qc_OF (h_ty h) (h_eq h) (h_d2 h) (h_mo h)) L
+      (tomo_cov_total Qc_OF eps (h_nv h) (h_ms h) (h_A h) (h_b h) (h_v h) nsv).
+Proof. exact tomo_exact_spec. Qed.
+Print Assumptions C19_exec_exact_is_model.
+Theorem C19_exec_empi_is_model : forall (h : hdr) (eps : Qc) (nsv : rvec), sizes_ok h = true ->
+  mse_empi_pds Qc_OF nsv O (pd_rows h eps) = mse_empi Qc_OF eps (h_nv h) (h_ms h) (h_A h) (h_b h) (h_v h) nsv /\
+  mse_empi_closed_pds Qc_OF nsv O (pd_rows h eps) = mse_empi_closed Qc_OF eps (h_nv h) (h_ms h) (h_A h) (h_b h) (h_v h) nsv.
+Proof. exact tomo_empi_spec. Qed.
+Print Assumptions C19_exec_empi_is_model.
+
+Theorem C19_exec_fisher_is_model : forall (h : hdr) (eps8 : Qc) (w : rvec), sizes_ok h = true ->
+  mres_mat_eq Qc_OF (fisher_total_of_raw Qc_OF eps8 (raw_frozen h) (h_A h) (h_ms h) w)
+                    (tomo_fisher_total Qc_OF eps8 (h_nv h) (h_ms h) (h_A h) (h_b h) (h_v h) w).
+Proof. exact exec_fisher_total_spec. Qed.
+Print Assumptions C19_exec_fisher_is_model.
+
+(* ---- non-vacuity: a two-outcome and a THREE-outcome schedule, one variable, unequal shot numbers ---- *)
+Definition ex_A : @mat Qc_OF := fun i _ => match i with O => 1%Qc | 1%nat => (- (1))%Qc | 2%nat => Q2Qc (1 # 2)%Q | 3%nat => Q2Qc (- 1 # 4)%Q | _ => Q2Qc (- 1 # 4)%Q end.
+Definition ex_b : @vec Qc_OF := fun i => match i with O => 0%Qc | 1%nat => 1%Qc | 2%nat => Q2Qc (1 # 4)%Q | 3%nat => Q2Qc (1 # 4)%Q | _ => Q2Qc (1 # 2)%Q end.
 Definition ex_v : @vec Qc_OF := fun _ => Q2Qc (1 # 3)%Q.
-Definition ex_L : @mat Qc_OF := fun _ j => match j with O => Q2Qc (2 # 5)%Q | 1%nat => Q2Qc (- 2 # 5)%Q | 2%nat => Q2Qc (1 # 5)%Q | _ => Q2Qc (- 1 # 5)%Q end.
+(* L = (A^T A)^-1 A^T,  A^T A = 19/8 *)
+Definition ex_L : @mat Qc_OF := fun _ j => match j with O => Q2Qc (8 # 19)%Q | 1%nat => Q2Qc (- 8 # 19)%Q | 2%nat => Q2Qc (4 # 19)%Q | 3%nat => Q2Qc (- 2 # 19)%Q | _ => Q2Qc (- 2 # 19)%Q end.
 Definition ex_n : nat -> nat := fun j => match j with O => 2%nat | _ => 3%nat end.
+Definition ex_ms : list nat := [2%nat; 3%nat].
 Example C19_example_hypotheses :
-  (forall j, (j < 2)%nat -> sumn 2 (fun x => affine Qc_OF 1 ex_A ex_b ex_v (j * 2 + x)) = c1 Qc_OF) /\
-  (forall j x, (j < 2)%nat -> (x < 2)%nat -> kle Qc_OF w_eps (affine Qc_OF 1 ex_A ex_b ex_v (j * 2 + x))) /\
-  (forall j, (j < 2)%nat -> (1 <= ex_n j)%nat) /\
-  meq 1 1 (mmul (2 * 2) ex_L ex_A) mid.
-Proof. split. { intros j Hj. destruct j as [|[|j]]; [| |lia]; apply Qc_is_canon; vm_compute; reflexivity. }
-  split. { intros j x Hj Hx. destruct j as [|[|j]]; [| |lia]; (destruct x as [|[|x]]; [| |lia]); apply Qcleb_spec; vm_compute; reflexivity. }
+  pieces_ok Qc_OF w_eps (affine Qc_OF 1 ex_A ex_b ex_v) ex_ms /\
+  (forall j, (j < length ex_ms)%nat -> (1 <= ex_n j)%nat) /\
+  meq 1 1 (mmul (sizes_sum ex_ms) ex_L ex_A) mid.
+Proof. split. { intros j Hj. cbn [length ex_ms] in Hj. destruct j as [|[|j]]; [| |lia]; (split; [apply Qc_is_canon; vm_compute; reflexivity|]);
+                intros x Hx; cbn [nth ex_ms] in Hx; right.
+                - destruct x as [|[|x]]; [| |lia]; apply Qcleb_spec; vm_compute; reflexivity.
+                - destruct x as [|[|[|x]]]; [| | |lia]; apply Qcleb_spec; vm_compute; reflexivity. }
   split. { intros j Hj. destruct j as [|[|j]]; cbn; lia. }
   intros i j Hi Hj. assert (i = O) by lia. assert (j = O) by lia. subst. apply Qc_is_canon. vm_compute. reflexivity. Qed.
-(* on this instance the analytical value (both sides computed) is 11/450 *)
+(* on this instance both sides are computed and agree (2 * 2 * 3 * 3 * 3 = 108 outcome sequences enumerated) *)
 Example C19_example_value :
-  mse_linear_analytical Qc_OF QST false true 4 1 (2 * 2) ex_L (tomo_cov_total Qc_OF w_eps 1 2 2 ex_A ex_b ex_v (fun j => of_nat Qc_OF (ex_n j)))
-  = expectL Qc_OF (tomo_scheds Qc_OF w_eps 1 2 2 ex_A ex_b ex_v ex_n)
-      (fun obs => sqdist Qc_OF 1 (est Qc_OF (2 * 2) ex_L ex_b (tomo_scheds Qc_OF w_eps 1 2 2 ex_A ex_b ex_v ex_n) obs) ex_v).
+  mse_linear_analytical Qc_OF QST false true 4 0 1 (sizes_sum ex_ms) ex_L (tomo_cov_total Qc_OF w_eps 1 ex_ms ex_A ex_b ex_v (fun j => of_nat Qc_OF (ex_n j)))
+  = expectL Qc_OF (tomo_scheds Qc_OF w_eps 1 ex_ms ex_A ex_b ex_v ex_n)
+      (fun obs => sqdist Qc_OF 1 (est Qc_OF (sizes_sum ex_ms) ex_L ex_b (tomo_scheds Qc_OF w_eps 1 ex_ms ex_A ex_b ex_v ex_n) obs) ex_v).
 Proof. apply Qc_is_canon. vm_compute. reflexivity. Qed.
